@@ -329,3 +329,42 @@ func Verif_C12_rule_reuse() {
 	}
 	verifapi.Cover("three-packets")
 }
+
+// Verif_C12_rules_replaced_during_evaluation: the rule list is replaced (AddFirewallRules with
+// clearExisting) while a packet is being judged, every schedule within the pre-emption bound. The old
+// list is [no match, accept] and the new one [accept, drop]: by its first matching rule EITHER list
+// accepts the packet, so it is delivered whichever list judges it - a verdict mixed from both is not
+// "the first matching rule of the configured list".
+func Verif_C12_rules_replaced_during_evaluation() {
+	n := verifNetceptor("A")
+	s := n.s
+	sk := n.verifListener("svc")
+	oldRules, err := ParseFirewallRules([]FirewallRuleData{{"action": "drop", "fromnode": "nobody"}, {"action": "accept"}})
+	verifapi.Assert("old-rules-parse", err == nil)
+	// rule functions are caller-supplied: the first old rule is one that takes a while (a scheduling point) and does not match
+	slow := oldRules[0]
+	oldRules[0] = func(md *MessageData) FirewallResult {
+		verifapi.Yield()
+		return slow(md)
+	}
+	newRules, err := ParseFirewallRules([]FirewallRuleData{{"action": "accept", "tonode": "A"}, {"action": "drop"}})
+	verifapi.Assert("new-rules-parse", err == nil)
+	verifapi.Assert("old-rules-installed", s.AddFirewallRules(oldRules, true) == nil)
+	verifapi.ExploreSchedules(1 + verifapi.Tier())
+	done := make(chan bool, 2)
+	go func() {
+		_ = s.handleMessageData(&MessageData{FromNode: "B", ToNode: "A", FromService: "x", ToService: "svc", HopsToLive: 5, Data: []byte{1}})
+		done <- true
+	}()
+	go func() {
+		_ = s.AddFirewallRules(newRules, true)
+		done <- true
+	}()
+	<-done
+	<-done
+	verifapi.ExploreSchedules(0)
+	verifapi.Quiesce()
+	verifapi.Cover("judged-during-reconfiguration")
+	verifapi.Assert("packet-accepted-by-either-list-is-delivered", len(*sk.got) == 1)
+	verifapi.Assert("no-lock-left-held", verifapi.HeldLocks() == 0)
+}
